@@ -94,7 +94,86 @@ def w_C15_aromatic():
     return bad, "remove_atom_mapping(%r) = %r: the ring-closure digit after an aromatic-bond ':' is eaten; valid input, unparsable output" % (smi, out)
 
 
+def _tmpdir():
+    import tempfile
+
+    d = os.path.join(ROOT, ".work")
+    os.makedirs(d, exist_ok=True)
+    return tempfile.mkdtemp(prefix="wit-", dir=d)
+
+
+def w_C12_key():
+    import shutil
+
+    d = _tmpdir()
+    try:
+        rx = ["CC(=O)OCC>>CCO"]
+        r0 = _balancer(cache=True, cache_dir=d, confidence_threshold=0).rebalance(rx, output_dict=True)
+        r1 = _balancer(cache=True, cache_dir=d, confidence_threshold=1.0).rebalance(rx, output_dict=True)
+        ref = _balancer(cache=False, confidence_threshold=1.0).rebalance(rx, output_dict=True)
+        bad = r1[0]["solved"] != ref[0]["solved"] and r1[0]["solved"] == r0[0]["solved"]
+        return bad, "same batch, threshold 0 then 1.0 over one cache directory: second run returns solved=%s (the cached row of the first run), without cache it returns solved=%s with issue %r" % (r1[0]["solved"], ref[0]["solved"], ref[0].get("issue"))
+    finally:
+        shutil.rmtree(d, ignore_errors=True)
+
+
+def w_C12_trunc():
+    import shutil
+
+    d = _tmpdir()
+    try:
+        rx = ["CCO>>CCO"]
+        _balancer(cache=True, cache_dir=d).rebalance(rx, output_dict=True)
+        files = [os.path.join(d, f) for f in os.listdir(d)]
+        data = open(files[0]).read()
+        open(files[0], "w").write(data[: len(data) // 2])
+        try:
+            _balancer(cache=True, cache_dir=d).rebalance(rx, output_dict=True)
+            return False, "no exception"
+        except Exception as e:
+            return True, "cache entry cut to half its length (a run killed inside json.dump): the next run raises %s out of Balancer.rebalance instead of treating the entry as a miss" % type(e).__name__
+    finally:
+        shutil.rmtree(d, ignore_errors=True)
+
+
+def w_C20_enol():
+    from synrbl.SynChemImputer.molecule_standardizer import MoleculeStandardizer
+
+    st = MoleculeStandardizer()
+    res = []
+    for smi in ("C(O)=CC", "CC(O)=C"):
+        try:
+            res.append((smi, "returns %r" % st(smi)))
+        except Exception as e:
+            res.append((smi, "raises: %s" % str(e)[:110]))
+    bad = all("Invalid atom indices" in r for _, r in res)
+    return bad, "; ".join("MoleculeStandardizer()(%r) %s" % x for x in res)
+
+
+def w_C14_marker():
+    b = _balancer()
+    res = []
+    for rx in ("CC(=O)Cl.[H][H]>>CC=O", "[H][H].CC(=O)Cl>>CC=O", "CC(=O)Cl.[HH]>>CC=O"):
+        r = b.rebalance([rx], output_dict=True)[0]
+        res.append((rx, bool(r["solved"]), r.get("solved_by"), r["reaction"]))
+    bad = (not res[0][1]) and res[1][1] and res[1][2] == "rule-based" and res[2][1] and res[2][2] == "rule-based"
+    return bad, "; ".join("%s -> solved=%s by %s (%s)" % x for x in res)
+
+
+def w_C02_peroxide():
+    rx = "CC(=O)Cl.O>>CC(=O)O.OO"
+    r = _balancer().rebalance([rx], output_dict=True)[0]
+    prod = r["reaction"].split(">>")[1].split(".")
+    bad = bool(r["solved"]) and "OO" not in prod
+    return bad, "rebalance([%r]) -> solved=%s by %s: %r -- the given product molecule OO is no longer on the product side" % (rx, r["solved"], r.get("solved_by"), r["reaction"])
+
+
 WITNESSES = {
+    "C14-substring-marker-order-sensitive": ("C14", w_C14_marker),
+    "C02-given-peroxide-rewritten": ("C02", w_C02_peroxide),
+    "C20-enol-roles-by-index-distance": ("C20", w_C20_enol),
+    "C12-cache-key-omits-configuration": ("C12", w_C12_key),
+    "C12-truncated-entry-raises": ("C12", w_C12_trunc),
     "C15-hypervalent-hydride-unbracketed": ("C15", w_C15_hydride),
     "C15-aromatic-bond-before-ring-digit": ("C15", w_C15_aromatic),
     "C05-unparsable-row-dropped": ("C05", w_C05_unparsable_row_dropped),
@@ -120,7 +199,7 @@ def start_for(pid):
     if pid in _STARTED:
         return _STARTED[pid]
     procs = []
-    env = dict(os.environ, PYTHONPATH=ROOT)
+    env = dict(os.environ, PYTHONPATH=ROOT, PYTHONHASHSEED="0")  # fgutils results depend on the hash seed
     for fid, (p, _fn) in WITNESSES.items():
         if p == pid:
             procs.append((fid, subprocess.Popen([sys.executable, "-m", "vf.witness", fid], stdout=subprocess.PIPE, stderr=subprocess.DEVNULL, env=env, cwd=ROOT)))
